@@ -59,6 +59,12 @@ def jobs(tier):
                             ('append-ra', (1, 2)), ('slice2d-scalar', slice(None), slice(0, 1))):
                     add('vector_write_job', 'vector-write[%s,%s,%s]' % (list(lv), form, '-'.join(str(x) for x in op_[:3] if not isinstance(x, slice))),
                         lengths=lv, op=op_, form=form)
+    # arrays WITH EMPTY ROWS (first, interior, several in a row): flat indices of a later row must still map to that row
+    for lv in ((2, 0, 1), (0, 2, 1), (1, 0, 0, 2)):
+        n = len(lv)
+        for op_ in (('elem', n - 1, lv[-1] - 1), ('row', 0), ('row', n - 1), ('iadd',), ('append-rows', (2, 1)), ('append-ra', (1, 2)), ('mask-assign',)):
+            add('write_job', 'write[%s,flat,%s]' % (list(lv), op_[0] + (str(op_[1]) if op_[0] == 'row' else '')), lengths=lv, op=op_, form='flat')
+        add('reduce_job', 'reductions-and-bool-ops[%s]' % list(lv), lengths=lv)
     for lv in ((2, 1), (1, 3, 2), (2, 2)):
         add('index_args_job', 'ndarray-index-arguments[%s,write]' % list(lv), lengths=lv, write=True)
     for n_, L_ in ((2, 2), (3, 2), (2, 3)) if q else ((2, 2), (3, 2), (2, 3), (3, 3), (1, 2), (4, 2)):
